@@ -823,7 +823,7 @@ def stepLine (st : LSt) (toks : List String) : LSt × List String :=
     match findNat "ps" rest, findNat "bs" rest, findNat "t0" rest with
     | some ps, some bs, some t0 =>
       -- `ReadBufPool::new` (read_buf.rs:54-62): a power of two, at most 2^15
-      if ps = 0 ∨ bs = 0 ∨ ps > 32768 ∨ ps &&& (ps - 1) ≠ 0 ∨ ps * bs > 8388608 then (none, [])
+      if ps = 0 ∨ bs = 0 ∨ ps > 32768 ∨ ps &&& (ps - 1) ≠ 0 ∨ ps * bs > 17179869184 ∨ bs ≥ 2147483648 then (none, [])
       else (some (initSys ps bs t0), [])
     | _, _, _ => (none, [])
   | _ =>
